@@ -67,7 +67,7 @@ def summary (l : List Nat) : Nat × Nat × Nat :=
 def specStress (n distinct : Nat) : Bool := n == distinct
 
 /-- Spec for a run across the wrap point (far fewer than `2^w` allocations): no id twice -/
-def specWrap (ids : List String) : Bool := ids.eraseDups.length == ids.length
+def specWrap (ids : List String) : Bool := decide (ids.Pairwise (· ≠ ·))
 
 /-- Spec for the allocation shape reported from the source: one `fetch_add(1, ..)` on a static atomic -/
 def specShape (toks : List String) : Bool := toks == ["shape", "rmw", "add=1", "static=1"]
